@@ -38,83 +38,74 @@ def run(ctx, rep):
     rep.analysed(g)
     where = '%s:%d' % (g.file, g.line)
     root = L.param_pred(g, 0)
-    ins = [c for c in g.calls if c.name == L.INSERT]
-    rep.floor('R3', 'insert_sites', len(ins))
-    rows = None
-    coll_seen = None
-    per_beh = {}
-    for c in ins:
-        beh = strip(sl.operand(g, c.args[1]))
-        name = strip(sl.operand(g, c.args[2]))
-        val = strip(sl.operand(g, c.args[3]))
-        bname = beh[2] if beh[0] == 'agg' and beh[1] == L.MB else vstr(beh)
-        coll, proj = L.loop_element(name)
-        if coll is None or coll[0] != 'array':
-            rep.unproven('R3', 'insert/%s/name' % bname, c.where(), 'variable name is not an element of a constant row table: ' + vstr(name)[:100])
+    # Every delta insert that read_from_layer_dir performs, directly or through private helpers, closures and loops
+    # over constant tables (unrolled row by row), with its arguments in the function's own terms:
+    #   (target delta, behaviour, variable name, value) + the branch decisions it runs under.
+    from .lib.effects import Effects, guards_of
+    E2 = Effects(prog, sl, vocab={L.INSERT: ('INSERT', None)})
+    ins = []
+    for e in E2.expand(g, 'may'):
+        if e.kind != 'INSERT' or len(e.args) < 4:
             continue
-        coll_seen = coll
-        ok_name = proj == ('0',)
-        # guard
-        gd = [cd for cd in conditions(g, c.bb, sl) if cd.kind == 'bool' and cd.value[0] == 'call' and cd.value[1].startswith('std::path::Path::')]
-        good_guard = False
-        why = [repr(x) for x in gd]
-        for cd in gd:
-            if cd.value[1] == 'std::path::Path::is_dir' and cd.outcome is True:
-                c2, p2 = L.loop_element(cd.value[2][0])
-                if c2 == coll and p2 == ('2',):
-                    good_guard = True
-        rep.check(good_guard, 'R2', 'insert/%s/guard' % bname, c.where(), 'guarded by is_dir(<layer>/<dir of the row>) == true',
-                  'implicit %s entry is not guarded by Path::is_dir of the row\'s directory: %s' % (bname, why))
-        if bname == 'Prepend':
-            c3, p3 = L.loop_element(val)
-            rep.check(ok_name and c3 == coll and p3 == ('2',), 'R3', 'insert/Prepend/value', c.where(), 'Prepend(name, <layer>/<dir>)',
-                      'Prepend entry value is not the row\'s directory: ' + vstr(val)[:100])
-        elif bname == 'Delimiter':
-            rep.check(ok_name and val == ('const', ':'), 'R3', 'insert/Delimiter/value', c.where(), 'Delimiter(name, ":")',
-                      'Delimiter entry is not the platform path-list separator ":": ' + vstr(val)[:80])
-        else:
-            rep.violated('R3', 'insert/%s' % bname, c.where(), 'implicit layer path inserted with behaviour %s' % bname)
+        tgt = strip(e.args[0])
+        fld = tgt[2] if tgt[0] == 'field' and tgt[2] in ('layer_paths_build', 'layer_paths_launch') else None
+        if fld is None and not any(x[0] == 'field' and x[2] in ('layer_paths_build', 'layer_paths_launch') for x in walk(e.args[0])):
+            continue    # an insert into a delta that is being read from an env directory, not an implicit path
+        ins.append((e, fld))
+    rep.floor('R3', 'insert_sites', len(ins))
+    got = set()
+    delims = set()
+    per_beh = {}
+    for e, fld in ins:
+        beh, name, val = strip(e.args[1]), strip(e.args[2]), strip(e.args[3])
+        bname = beh[2] if beh[0] == 'agg' and beh[1] == L.MB else vstr(beh)[:40]
+        scope = {'layer_paths_build': 'Build', 'layer_paths_launch': 'Launch'}.get(fld)
+        rep.check(scope is not None, 'R3', 'insert/%s/target' % bname, e.where(), 'Build rows -> layer_paths_build, Launch rows -> layer_paths_launch',
+                  'implicit path inserted into %s' % vstr(e.args[0])[:80])
+        if name[0] != 'const' or not isinstance(name[1], str):
+            rep.unproven('R3', 'insert/%s/name' % bname, e.where(), 'variable name is not a constant of a row table: ' + vstr(name)[:100])
+            continue
         per_beh[bname] = per_beh.get(bname, 0) + 1
-        # target delta by scope of the row
-        loc = phi_local_of(g, c.args[0])
-        tgt = {}
-        if loc is not None:
-            for bi, v, conds in arm_defs(g, loc, sl):
-                var = [cd for cd in conds if cd.kind == 'variant' and cd.enum == L.SCOPE]
-                v = strip(v)
-                fld = v[2] if v[0] == 'field' else vstr(v)[:50]
-                if var and len(var[-1].outcome) == 1:
-                    c4, p4 = L.loop_element(var[-1].subject)
-                    if c4 == coll and p4 == ('1',):
-                        tgt[next(iter(var[-1].outcome))] = fld
-        rep.check(tgt == {'Build': 'layer_paths_build', 'Launch': 'layer_paths_launch'}, 'R3', 'insert/%s/target' % bname, c.where(),
-                  'Build rows -> layer_paths_build, Launch rows -> layer_paths_launch', 'row scope -> target delta table is %s' % tgt)
-    rep.check(per_beh == {'Prepend': 1, 'Delimiter': 1}, 'R3', 'insert/pair', where, 'each row inserts one Prepend and one Delimiter entry',
-              'rows insert %s' % per_beh)
+        # the row's directory: from the value (Prepend) and from the is_dir guard (both behaviours)
+        gdirs = []
+        for cd, views, subj in guards_of(E2, e):
+            for v, oc in views:
+                if cd.kind == 'bool' and v[0] == 'call' and v[1] == 'std::path::Path::is_dir' and oc is True:
+                    cs = L.comps(v[2][0], root)
+                    if cs is not None and len(cs) == 1:
+                        gdirs.append(cs[0])
+        if bname == 'Prepend':
+            cs = L.comps(val, root)
+            ok_v = cs is not None and len(cs) == 1 and isinstance(cs[0], str)
+            rep.check(ok_v, 'R3', 'insert/Prepend/value', e.where(), 'Prepend(name, <layer>/<dir>)', 'Prepend entry value is not a directory of the layer: ' + vstr(val)[:100])
+            if ok_v:
+                got.add((name[1], scope, cs[0]))
+                rep.check(cs[0] in gdirs, 'R2', 'insert/Prepend/guard', e.where(), 'guarded by is_dir(<layer>/%s) == true' % cs[0],
+                          'implicit Prepend entry %s=<layer>/%s is not guarded by Path::is_dir of that directory (guards: %s)' % (name[1], cs[0], gdirs))
+        elif bname == 'Delimiter':
+            rep.check(val == ('const', ':'), 'R3', 'insert/Delimiter/value', e.where(), 'Delimiter(name, ":")',
+                      'Delimiter entry is not the platform path-list separator ":": ' + vstr(val)[:80])
+            delims.add((name[1], scope, tuple(sorted(set(gdirs)))))
+        else:
+            rep.violated('R3', 'insert/%s' % bname, e.where(), 'implicit layer path inserted with behaviour %s' % bname)
+    # each row inserts one Prepend and one Delimiter entry, under the same directory test
+    pairs_ok = per_beh.get('Prepend') == per_beh.get('Delimiter') and set(per_beh) <= {'Prepend', 'Delimiter'} and \
+        all(any(d[0] == n and d[1] == sc and dr in d[2] for d in delims) for n, sc, dr in got)
+    rep.check(pairs_ok, 'R3', 'insert/pair', where, 'each row inserts one Prepend and one Delimiter entry', 'rows insert %s' % per_beh)
+    for n, sc, dr in sorted(got):
+        d_ok = any(d[0] == n and d[1] == sc and dr in d[2] for d in delims)
+        rep.check(d_ok, 'R2', 'insert/Delimiter/guard/%s/%s' % (n, sc), where, 'the delimiter of %s is set under is_dir(<layer>/%s)' % (n, dr),
+                  'the Delimiter entry of %s (%s) is not guarded by Path::is_dir of the row\'s directory' % (n, sc))
     # ---- R1 ----------------------------------------------------------------------------------------
-    if coll_seen is None:
-        rep.unproven('R1', 'table', where, 'row table not found')
-    else:
-        got = set()
-        bad = []
-        for row in coll_seen[1]:
-            row = strip(row)
-            if row[0] != 'tuple' or len(row[1]) != 3:
-                bad.append(vstr(row)[:80])
-                continue
-            n, sc, pth = (strip(x) for x in row[1])
-            cs = L.comps(pth, root)
-            if n[0] == 'const' and sc[0] == 'agg' and sc[1] == L.SCOPE and cs is not None and len(cs) == 1:
-                got.add((n[1], sc[2], cs[0]))
-            else:
-                bad.append(vstr(row)[:80])
-        rep.extra['layer_path_rows'] = sorted(got)
-        rep.check(not bad, 'R1', 'table/shape', where, 'all rows are (name, scope, <layer>/<dir>) constants', 'unrecognised rows: %s' % bad)
-        for row in sorted(SPEC):
-            rep.check(row in got, 'R1', 'row/%s/%s' % (row[0], row[1]), where, '%s for %s from <layer>/%s' % row, 'spec row %s missing' % (row,))
-        for row in sorted(got - SPEC):
-            rep.violated('R1', 'extra-row/%s/%s' % (row[0], row[1]), where, 'row %s is not in the spec\'s layer path table' % (row,))
-        rep.check(len(coll_seen[1]) == 7, 'R1', 'table/size', where, 'exactly 7 rows', '%d rows (duplicates or extras)' % len(coll_seen[1]))
+    rep.extra['layer_path_rows'] = sorted(got)
+    if not got:
+        rep.unproven('R1', 'table', where, 'no implicit layer path insert was recognised: the row table could not be extracted')
+    for row in sorted(SPEC if got else ()):
+        rep.check(row in got, 'R1', 'row/%s/%s' % (row[0], row[1]), where, '%s for %s from <layer>/%s' % row, 'spec row %s missing' % (row,))
+    for row in sorted(got - SPEC):
+        rep.violated('R1', 'extra-row/%s/%s' % (row[0], row[1]), where, 'row %s is not in the spec\'s layer path table' % (row,))
+    if got:
+        rep.check(per_beh.get('Prepend') == 7, 'R1', 'table/size', where, 'exactly 7 rows', '%s Prepend inserts (duplicates or extras)' % per_beh.get('Prepend'))
     # ---- R6: the entries inserted above take effect through the Prepend / Delimiter arms of the delta application --
     from . import C04
     rep.rule('R6', 'Prepend / Delimiter arms of the delta application (shared with C04.R5): value [+ delimiter + previous if non-empty], on every path')
